@@ -241,14 +241,14 @@ class C16(vlib.Spec):
         "shard_in_range", "shard_error_iff", "traceShard_in_range", "applyLocators_in_range",
         "selector_canonical", "canonical_unique", "selector_canonical_fn", "order_independent",
         "pick_order_independent", "pick_total_canon", "pick_total", "pick_unknown",
-        "replicas_disjoint_of_nodup", "nodes_exact", "replicas_disjoint",
+        "replicas_disjoint_of_nodup", "nodes_exact", "replicas_disjoint", "locateAll_distinct", "locateAll_total",
         "legacy_same_topology", "addNode_legacy_counterexample", "order_independent_legacy_fails",
         "addNode_legacy_partial"]] + [
         "Banyan.Tie.C16." + t for t in ["shardNumMin_tie", "traceShardOnZero_tie", "copiesExtra_tie",
                                         "selectNode_shape", "sortEntries_shape"]]
     go_driver = "c16"
     lean_driver = "C16"
-    counts = {"quick": 9000, "thorough": 160000}
+    counts = {"quick": 8000, "thorough": 120000}
     trusted_base = [
         "Lean 4.33.0 kernel",
         "correspondence check: Go driver hooks/banyand/internal/verifdrv/c16 (+ export hook hooks/banyand/liaison/grpc/zz_verif_c16.go) "
